@@ -10,6 +10,10 @@ from multiprocessing import Pool
 from harness import common as C
 
 PROP = "C10"
+# 1 = /repo carries fix C10-F1 (sort_dataframe_by_onsets is a stable sort): repaired model, full statement.
+# 0 = unpatched tree: unrepaired model, the recorded tie order of sort_values is an oracle/model input and the
+#     finding class C10-F1 is accepted (needs the C10-F1 entry in known_findings.json).
+FIXED = int(os.environ.get("VERIF_C10_FIXED", "1"))
 COQ_TARGETS = ["Props/C10.vo", "Extract/ExtractC10.vo"]
 DRIVERS = ["c10"]
 TRUSTED = [
@@ -20,8 +24,9 @@ TRUSTED = [
     "Model/Timeline.v is a hand transcription of df_util.sort_dataframe_by_onsets / split_delay_tags / "
     "_indexed_dict_from_onsets / _filter_by_index_list, BaseInput.needs_sorting and "
     "SpreadsheetValidator._run_onset_checks; pandas (DataFrame construction, .loc append, reset_index, to_numeric) "
-    "and HedTag.value_as_default_unit are trusted; the tie order of pandas sort_values (no kind=) is NOT fixed by "
-    "the code: the model takes it as an explicit argument and defaults to the order-preserving sort",
+    "and HedTag.value_as_default_unit are trusted; since fix C10-F1 sort_values(kind='stable') is modelled as the "
+    "stable insertion sort (pandas' stable sort is trusted to be stable; every recorded sort result is checked to "
+    "be order-preserving on each run); VERIF_C10_FIXED=0 selects the unrepaired model whose tie order is an input",
     "str.casefold is modelled on ASCII only (A-Z -> a-z); the generators use ASCII definition names",
 ]
 ASSUMPTIONS = [
@@ -30,7 +35,7 @@ ASSUMPTIONS = [
     "structural group errors (ONSET_NO_DEF_TAG_FOUND, ONSET_TOO_MANY_DEFS, ONSET_DEF_UNMATCHED ...) come from "
     "DefValidator.validate_onset_offset and are outside C10; only OFFSET_BEFORE_ONSET, INSET_BEFORE_ONSET and "
     "ONSET_SAME_DEFS_ONE_ROW are compared",
-    "the theorems quantify over ALL histories/files of the model; the tie to /repo is differential testing "
+    "the theorems quantify over ALL histories/files of the model (fixed=true = the code with fix C10-F1); the tie to /repo is differential testing "
     "(exhaustive for short histories, random beyond)",
 ]
 
@@ -363,7 +368,7 @@ def model_line(case, perms=(None, None)):
         gs = " ".join("(%s %s)" % ("N" if g[0] is None else g[0], "N" if g[1] is None else marker_sx(g[1]))
                       for g in r["g"])
         rows.append("(%d %d (%s))" % (r["on"], 1 if r.get("bad") else 0, gs))
-    return "(F %s %s %s)" % (perm_sx(perms[0]), perm_sx(perms[1]), " ".join(rows))
+    return "(F %d %s %s %s)" % (FIXED, perm_sx(perms[0]), perm_sx(perms[1]), " ".join(rows))
 
 
 def sx_name(x):
@@ -523,6 +528,11 @@ def oracle(case, r, res):
         return False
     # files: the statement speaks about time-ordered files; a time point that starts with a row that failed the
     # basic checks is skipped ("Skip rows that had issues", _run_onset_checks) -- the reference does the same
+    if FIXED and any(not st for _, st in r["perms"]):
+        # the repaired sort must keep rows with equal (effective) onsets in their order -- on every file
+        res.report("effective-time-order", case, f"sort_dataframe_by_onsets did not preserve the order of equal "
+                                                 f"onsets: tie_orders={r['perms']}")
+        return True
     if not is_sorted_file(case):
         return False
     has_bad = any(x.get("bad") for x in case["rows"])
@@ -531,13 +541,13 @@ def oracle(case, r, res):
         perms = [p for p, _ in r["perms"]]
         unstable = any(not s for _, s in r["perms"])
         fid = None
-        if unstable:
+        if unstable and not FIXED:
             # known class C10-F1: the ONLY deviation is the tie order pandas chose among equal effective onsets
             alt_iss, alt_open = ref_file(case["rows"], perms)
             if r["issues"] == alt_iss and sorted(r["state"] or []) == alt_open:
                 fid = "C10-F1"
-        clause = "effective-time-order" if fid else ("failed-row-time-points-skipped" if has_bad else
-                                                     classify(r["issues"], exp_iss))
+        clause = "effective-time-order" if (fid or unstable) else ("failed-row-time-points-skipped" if has_bad else
+                                                                  classify(r["issues"], exp_iss))
         res.report(clause, case, f"impl={r['issues']} open={r['state']} statement={exp_iss} open={exp_open} "
                                  f"tie_orders={r['perms']}", fid=fid)
         return True
@@ -564,9 +574,9 @@ def exh_specs(tier):
         return [(NAMES5, 1), (NAMES5, 2), (NAMES5, 3), (NAMES5[:4], 4)], \
             "all histories of <=3 markers over {Onset,Offset,Inset}x{A,a,B/1,B/2,b/1} and of 4 markers over " \
             "{A,a,B/1,B/2}, each with every grouping into time points"
-    return [(NAMES5, 1), (NAMES5, 2), (NAMES5, 3), (NAMES5, 4), (NAMES5[:2], 5), (NAMES5[:1], 6)], \
+    return [(NAMES5, 1), (NAMES5, 2), (NAMES5, 3), (NAMES5, 4), (NAMES5[:4], 5), (NAMES5[:3], 6)], \
         "all histories of <=4 markers over {Onset,Offset,Inset}x{A,a,B/1,B/2,b/1}, of 5 markers over " \
-        "{A,a} and of 6 markers over {A}, each with every grouping into time points"
+        "{A,a,B/1,B/2} and of 6 markers over {A,a,B/1}, each with every grouping into time points"
 
 
 def exh_slice(names, n, prefix):
@@ -581,7 +591,7 @@ def exh_tasks(specs):
     out = []
     for names, n in specs:
         m = 3 * len(names)
-        k = 0 if n < 3 else (1 if n < 5 else 2)
+        k = 0 if n < 3 else (1 if n < 5 else n - 3)
         for prefix in itertools.product(range(m), repeat=k):
             out.append({"kind": "exh", "names": names, "n": n, "prefix": list(prefix)})
     return out
@@ -629,7 +639,7 @@ def work(task):
     f1_checked = 0
     if exe:
         def perms_for(c, r):
-            if c["t"] == "F" and "exn" not in r and not is_sorted_file(c) and len(r["perms"]) == 2:
+            if not FIXED and c["t"] == "F" and "exn" not in r and not is_sorted_file(c) and len(r["perms"]) == 2:
                 return (r["perms"][0][0], r["perms"][1][0])       # outside the statement: replay the tie orders
             return (None, None)
         mod = C.run_driver(exe, [model_line(c, perms_for(c, r)) for c, r in zip(cases, impl)], shards=1)
@@ -655,7 +665,7 @@ def work(task):
                     mm["sort_calls_expected"] = nper
             if ok:
                 continue
-            if c["t"] == "F" and is_sorted_file(c) and any(not s for _, s in r["perms"]):
+            if not FIXED and c["t"] == "F" and is_sorted_file(c) and any(not s for _, s in r["perms"]):
                 redo.append(idx)          # tie order not preserved: re-run the model with the observed order
                 continue
             disagreements += 1
@@ -704,11 +714,14 @@ def run(tier, seed, res, model_ok=True, proof_ok=True):
     rng = random.Random(seed)
     quick = tier == "quick"
     wide = 1 if proof_ok else 3
+    if not FIXED:      # pre-fix tree: the repaired finding is accepted again (it is no longer in known_findings.json)
+        res.known_ids.setdefault("C10-F1", {"what": "pre-fix tree (VERIF_C10_FIXED=0): tie order of sort_values "
+                                                    "among equal onsets is platform dependent (repaired by fix-F1)"})
     corpus = CORPUS + [F1_WITNESS]
     small = quick and os.environ.get("VERIF_C10_BUDGET") == "small"
     specs, exh_rule = exh_specs("small" if small else tier)
-    nh = (1000 if small else 4000 if quick else 16000) * wide
-    nf = (1500 if small else 5000 if quick else 20000) * wide
+    nh = (1000 if small else 4000 if quick else 40000) * wide
+    nf = (1500 if small else 5000 if quick else 60000) * wide
     rand_h = gen_random_histories(rng, nh, 0.0) + gen_random_histories(rng, nh // 3, 0.25)
     files = (exhaustive_files() + gen_random_files(rng, nf, 0.0) + gen_random_files(rng, nf // 4, 0.3)
              + gen_random_files(rng, nf // 5, 0.1, unsorted=True))
@@ -759,6 +772,7 @@ def run(tier, seed, res, model_ok=True, proof_ok=True):
         "failures_not_listed_individually": dropped,
         "exhaustive": True,
         "exhaustive_domain": exh_rule,
+        "fixed_mode": FIXED,
     }
 
 
@@ -775,6 +789,8 @@ def replay(payload):
     print("impl:", r)
     res = C.Result(PROP)
     res.known_ids = {f["id"]: f for f in C.known_findings().get("findings", []) if f.get("property") == PROP}
+    if not FIXED:
+        res.known_ids.setdefault("C10-F1", {"what": "pre-fix tree"})
     oracle(case, r, res)
     for v in res.violations:
         print("FAILS:", v["clause"], v["detail"])
@@ -784,14 +800,14 @@ def replay(payload):
     try:
         exe = C.build_driver("c10")
         perms = (None, None)
-        if case["t"] == "F" and "exn" not in r and not is_sorted_file(case) and len(r["perms"]) == 2:
+        if not FIXED and case["t"] == "F" and "exn" not in r and not is_sorted_file(case) and len(r["perms"]) == 2:
             perms = (r["perms"][0][0], r["perms"][1][0])
         m = C.run_driver(exe, [model_line(case, perms)])[0]
         mm = model_history(m) if case["t"] == "H" else model_file(m)
         print("model:", mm)
         same = (mm.get("trace") == r.get("trace")) if case["t"] == "H" else \
             (mm.get("issues") == r.get("issues") and mm.get("state") == r.get("state"))
-        if not same and case["t"] == "F" and is_sorted_file(case) and any(not st for _, st in r.get("perms", [])):
+        if not same and not FIXED and case["t"] == "F" and is_sorted_file(case) and any(not st for _, st in r.get("perms", [])):
             m2 = model_file(C.run_driver(exe, [model_line(case, (None, r["perms"][0][0]))])[0])
             print("model with the observed tie order of sort_values:", m2)
             same = m2.get("issues") == r.get("issues") and m2.get("state") == r.get("state")
